@@ -18,7 +18,7 @@ DOC = {
         'C18.R3': 'move_target = target_dir.join([root name]).join(source.strip_root()); the Move command\'s target is move_target(target_dir, <the dropped file\'s path>)',
         'C18.R4': 'use_rename = are_on_same_mount(devices, source, target_dir) (mount points compared for equality); execute tries rename only under use_rename; DIR is resolved against the working directory in main',
         'C18.R6': 'the device table cannot make `move` panic: a vector of DiskDevices that is indexed with a constant (devices[0], the default device) is one that DiskDevices::new() pushes to unconditionally; the list of mount points comes from sysinfo and can be empty, so it is only searched',
-        'C18.R5': 'the existence test in check_can_rename does not follow symlinks (uses symlink_metadata / lstat)',
+        'C18.R5': 'only a missing target is a free target: any other failure of the lstat refuses the move, and the first existing ancestor of the target must be a directory (the parents are created by mkdirs, which fails on a file or a dangling link in their place - after the command has been announced); the existence test in check_can_rename does not follow symlinks (uses symlink_metadata / lstat)',
     },
     'not_decided': 'the time-of-check/time-of-use window between the existence test and rename/copy; mount-point detection on real systems; byte preservation by fs::copy',
     'assumptions': ['std::fs::rename and std::fs::copy overwrite an existing target; Path::exists follows symbolic links'],
@@ -137,6 +137,18 @@ def r15(ctx, lib):
               'existence decided by %s (does not follow symlinks)' % ', '.join(sorted({c.path for c in nofollow})),
               'existence decided only by %s, which follows symbolic links: a dangling symlink at the target is treated as absent and overwritten'
               % ', '.join(sorted({c.path for c in follow}) or ['<no stat call>']))
+    # "free" means "not there": every other failure of the lstat (a file in the place of a parent directory: ENOTDIR, ...) refuses the move too,
+    # and the first existing ancestor of the target has to be a directory - otherwise mkdirs() fails in execute() for a command that was announced
+    from ..analysis import slice_const_values
+    nf = [kc for kc in b.calls(r'ErrorKind as std::cmp::PartialEq>::eq$') if any(str(v).endswith('ErrorKind::NotFound') for a in kc.args for v in slice_const_values(lib, backslice(b, [a])))]
+    anc = b.calls(r'path::Path::parent$')
+    isdir = b.calls(r'Metadata::is_dir$|Path::is_dir$')
+    loop = any(c.bb in b.reachable(x) for c in anc for x in b.succs(c.bb))
+    ctx.check(bool(nf) and bool(anc) and bool(isdir) and loop, 'C18.R5', P + '|parents-checked', b.where(line),
+              'only NotFound counts as a free target, and the first existing ancestor of the target must be a directory',
+              'check_can_rename reads every failure of the lstat as "the target is free" and does not look at the parents: with a regular file (or a dangling link) where a parent directory of the '
+              'target is needed - `DIR/home/u/a` is a file, or DIR itself is one - the command passes the precondition, `move --dry-run` prints it and counts the file, and the real run fails in '
+              'mkdirs ("File exists" / "Not a directory")')
     # a positive test returns Err; both outcomes present
     rv = return_variants_from(b, 0)
     ctx.check('Err' in rv and 'Ok' in rv, 'C18.R1', P + '|returns-err-when-exists', b.where(line), 'returns Err on one side of the test and Ok on the other', 'check_can_rename returns %s' % sorted(rv))
